@@ -365,7 +365,8 @@ class RegionLifter:
                 return Vec(base[self.as_int(i)] for i in ix)
             i = self.as_int(ix)
             if not -len(base) <= i < len(base):
-                raise Unsupported(f"index {i} out of bounds for length {len(base)}")
+                raise Raised(f"index {i} out of bounds for an array of length {len(base)} "
+                             "(no bounds checking in compiled code: a neighbouring value is read)")
             return base[i]
         raise Unsupported(f"subscript of {type(base).__name__}")
 
@@ -397,7 +398,7 @@ class RegionLifter:
             else:
                 i = self.as_int(ix)
                 if not -len(base) <= i < len(base):
-                    raise Unsupported(f"store index {i} out of bounds for length {len(base)}")
+                    raise Raised(f"store index {i} out of bounds for an array of length {len(base)}")
                 base[i] = v
                 return
             if isinstance(v, (Vec, list)):
